@@ -65,12 +65,12 @@ pub(crate) fn run(line: &str) -> String {
             _ if op.starts_with("pollstop:") => { let k: usize = op[9..].parse().unwrap(); if !stops[k].1 { if let Poll::Ready(()) = stops[k].0.as_mut().poll(&mut cx) { stops[k].1 = true; } } }
             _ if op.starts_with('w') => {
                 let (i, how) = op[1..].split_once(':').unwrap(); let i: usize = i.parse().unwrap();
-                while let Ok(s) = ends[i].0.stop_rx.try_recv() { ends[i].1.push(wdrv::stop_parts(s)); }
+                while let Poll::Ready(Some(s)) = ends[i].0.stop_rx.poll_recv(&mut cx) { ends[i].1.push(wdrv::stop_parts(s)); }
                 for (_, tx) in ends[i].1.drain(..) { if how == "true" { let _ = tx.send(true); } else { drop(tx); } }
             }
             _ => panic!("op {}", op),
         }
-        for e in ends.iter_mut() { while let Ok(s) = e.0.stop_rx.try_recv() { e.1.push(wdrv::stop_parts(s)); } }
+        for e in ends.iter_mut() { while let Poll::Ready(Some(s)) = e.0.stop_rx.poll_recv(&mut cx) { e.1.push(wdrv::stop_parts(s)); } }
         let (mut p, mut r, mut s) = (0, 0, 0);
         for i in waker_queue.guard().iter() { match i { WakerInterest::Pause => p += 1, WakerInterest::Resume => r += 1, WakerInterest::Stop => s += 1, _ => {} } }
         let ws: Vec<String> = ends.iter().map(|e| if e.1.is_empty() { "-".to_string() } else { e.1.iter().map(|(g, _)| if *g { 'g' } else { 'f' }).collect() }).collect();
